@@ -100,8 +100,15 @@ ScanF(f, s, x) ==
       [] f = "sum_le5" -> IF s + x > 5 THEN [s |-> s, emit |-> <<>>, stop |-> TRUE]
                           ELSE [s |-> s + x, emit |-> <<s + x>>, stop |-> FALSE]
 
-FoldAll(f, s) == FoldLeft(LAMBDA a, x : FoldF(f, a, x), FoldInit(f), s)
-ReduceAll(f, s) == FoldLeft(LAMBDA a, x : ReduceF(f, a, x), Head(s), Tail(s))
+\* strict left folds: the accumulator is bound as a VALUE at every step (a bounded variable),
+\* so a step function that uses it several times does not re-evaluate the fold of the prefix
+RECURSIVE FoldFrom(_, _, _), ReduceFrom(_, _, _)
+FoldFrom(f, acc, s) == IF s = <<>> THEN acc
+                       ELSE CHOOSE r \in {FoldFrom(f, a, Tail(s)) : a \in {FoldF(f, acc, Head(s))}} : TRUE
+ReduceFrom(f, acc, s) == IF s = <<>> THEN acc
+                         ELSE CHOOSE r \in {ReduceFrom(f, a, Tail(s)) : a \in {ReduceF(f, acc, Head(s))}} : TRUE
+FoldAll(f, s) == FoldFrom(f, FoldInit(f), s)
+ReduceAll(f, s) == ReduceFrom(f, Head(s), Tail(s))
 
 \* scan over a whole sequence from state st0 (alive0 = not yet terminated);
 \* result [out, s, alive]
